@@ -10,6 +10,23 @@ E3 = 'TLC model checking of a TLA+ model generated from the documented tables, w
 
 # pid -> (engine, technique, level text, note, design_ref)
 CHECKS = {
+    'C05': ('E1', E1,
+            'Every commensurate sampling with independent per-axis periods N in {n..n+4}, oversample factors dividing N, both '
+            'propagators: total intensity equals the input power to 1e-10; for every DFT configuration every centred window a x b '
+            '(all chains of nested windows) and a chain of nested mask boxes: captured power monotone, non-negative, bounded by the '
+            'input; normalize_power targets on real/complex/integer arrays and through propagation.',
+            'Trusted: numpy; complex pupil payloads are generic, not adversarial; sizes above 7 outside the bound.',
+            'DESIGN.md section 4 C05'),
+    'C08': ('E3', E3,
+            'The three documentation tables are parsed at check time into a TLA+ module (one named action per plane ptype, per '
+            'documented/exported plane class, and Propagate; refusals as TypeError outcomes). TLC checks the documented protocol '
+            'itself (type closure, refusals keep the type, propagation only swaps pupil and image) and dumps the labelled graph; '
+            'every action sequence of the model up to depth 4/6 from all three initial types is replayed on real lentil objects '
+            '(de-duplicated on model node x implementation digest): ptype after each step, TypeError exactly where the model refuses, '
+            'refused steps leave wavefront and plane unchanged.',
+            'Trusted: TLC 1.8.0, the rst parsers in mc/tlc.py, the docs in the tree under test as the specification. '
+            'Rotate/Flip are recorded known findings.',
+            'DESIGN.md section 4 C08'),
     'C09': ('E1+E2', E1 + '; ' + E2 + ' (shared scratch histories)',
             'Cross product of pupil shapes/supports, FFT grids of both parities N in {n..n+5} reached through the wavelength '
             '(including wavelengths that differ from the reported one), oversample 1..3, isotropic and per-axis sampling, every '
